@@ -16,6 +16,7 @@ DETECT = {
  "C17/m1": ["C17"], "C17/m2": ["C17"], "C18/m1": ["C18"], "C18/m2": ["C18"], "C19/m1": ["C19"], "C19/m2": ["C19"],
  "C20/m1": ["C20"], "C20/m2": ["C20"],
 }
+DETECT.update({"r7/C01/m1": ["C01", "C05"], "r7/C05/m1": ["C10"], "r7/C06/m2": [], "r7/C13/m2": ["C16"], "r7/C16/m1": ["C08", "C15"]})
 DETECT.update({"r2/C06/m1": ["C06", "C07"], "r2/C10/m2": ["C10", "C03"], "r5/C15/m2": ["C14"], "r6/C11/m2": ["C13", "C01", "C20"]})
 kept = 0
 for r in CONF:
